@@ -295,3 +295,175 @@ def g_c18(rng, tier, budget):
 
 
 GENERATORS.update({"C18": g_c18})
+
+
+# ---------------------------------------------------------------------------------------
+# C19 pair selection
+
+def rank_tables(rng):
+    ident = list(range(256))
+    tabs = {
+        "default": None,
+        "const0": [0] * 256,
+        "const255": [255] * 256,
+        "identity": ident,
+        "reversed": ident[::-1],
+        "random": [rng.randrange(256) for _ in range(256)],
+        "coarse": [b // 64 for b in range(256)],        # non-injective
+    }
+    return tabs
+
+
+def g_c19(rng, tier, budget):
+    tabs = rank_tables(rng)
+    lens = list(range(0, 40)) + [63, 64, 65, 127, 128, 254, 255, 256, 257, 258, 300, 511, 600]
+    if tier == "quick":
+        lens = list(range(0, 20)) + [31, 32, 33, 64, 254, 255, 256, 257, 300, 600]
+    n = 0
+    for L in lens:
+        needles = [[0x61] * L, ([0x61, 0x62] * L)[:L], [(i * 7 + 3) % 256 for i in range(L)],
+                   [rng.randrange(256) for _ in range(L)], [rng.choice([0x61, 0x62, 0x63]) for _ in range(L)],
+                   # rarest bytes far to the right (beyond the 255-byte window when L > 255)
+                   [0x65] * max(0, L - 2) + [0x00, 0x01][:min(2, L)]]
+        for needle in needles:
+            for name, tab in tabs.items():
+                # a ranker that makes the needle's bytes the most common
+                t = "default" if tab is None else hx(tab)
+                yield ("pair %s %s" % (t, hx(needle)), dict(family="pair-" + name))
+                n += 1
+            common = [0] * 256
+            for b in set(needle):
+                common[b] = 255
+            yield ("pair %s %s" % (hx(common), hx(needle)), dict(family="pair-needle-common"))
+    # with_indices: all (i1,i2) over a grid for several lengths
+    for L in ([0, 1, 2, 3, 17, 255, 256, 300] if tier == "quick" else [0, 1, 2, 3, 5, 17, 100, 254, 255, 256, 257, 300]):
+        needle = [(i * 5) % 251 for i in range(L)]
+        idx = sorted(set([0, 1, 2, L - 2, L - 1, L, L + 1, 16, 17, 254, 255]) & set(range(256)))
+        if tier == "thorough":
+            idx = sorted(set(idx) | set(range(0, 256, 7)))
+        for i1 in idx:
+            for i2 in idx:
+                yield ("pairidx %s %d %d" % (hx(needle), i1, i2), dict(family="pairidx"))
+    if tier == "thorough":
+        needle = [(i * 5) % 251 for i in range(20)]
+        for i1 in range(256):
+            for i2 in range(256):
+                yield ("pairidx %s %d %d" % (hx(needle), i1, i2), dict(family="pairidx-full"))
+
+
+# ---------------------------------------------------------------------------------------
+# C12 building blocks: rk, shiftor, twfind, ppfind
+
+def rk_colliding(rng):
+    """pairs (needle, hay window) with equal Rabin-Karp hash but different bytes: the hash is
+    sum b_i * 2^(n-1-i) mod 2^32, so [x, y] and [x-1, y+2] collide; for needles longer than 32
+    bytes the leading bytes do not influence the hash at all."""
+    out = []
+    out.append(([0x62, 0x62], [0x61, 0x64]))
+    out.append(([0x10, 0x20, 0x30], [0x10, 0x1F, 0x32]))
+    n = [rng.randrange(256) for _ in range(40)]
+    w = list(n)
+    w[0] ^= 0xFF           # 2^39 factor wraps to 0: same hash
+    w[3] ^= 0x55
+    out.append((n, w))
+    return out
+
+
+def g_c12(rng, tier, budget):
+    per = None if budget is None else max(1000, budget // 6)
+    # Rabin-Karp forward/reverse
+    for d in ("fwd", "rev"):
+        fmt = lambda n, h, d=d: "rk %s %d %s %d %s" % (d, (4096 - len(h)) % 4096, hx(h), 3, hx(n))
+        yield from gen_substr_block(rng, tier, per, fmt, family="rk-" + d, exhaustive_ab=(4, 8))
+        for (n, w) in rk_colliding(rng):
+            for hay in (w, [0x2E] * 5 + w + [0x2E] * 3, w + n, n + w, w + w + n):
+                yield ("rk %s 0 %s 0 %s" % (d, hx(hay), hx(n)), dict(family="rk-collide"))
+    # Shift-Or (needle <= 15 on its domain; > 15 must report nofinder)
+    fmt = lambda n, h: "shiftor %s %s" % (hx(n), hx(h))
+    yield from gen_substr_block(rng, tier, per, fmt, needle_ok=lambda n: len(n) <= 16, family="shiftor",
+                                exhaustive_ab=(5, 9))
+    for L in (14, 15):
+        n = [rng.choice([0x61, 0x62]) for _ in range(L)]
+        for pre in range(0, 20, 3):
+            h = [rng.choice([0x61, 0x62]) for _ in range(pre)] + n + [0x61] * 4
+            yield ("shiftor %s %s" % (hx(n), hx(h)), dict(family="shiftor-15"))
+    for L in (16, 17, 40):
+        yield ("shiftor %s %s" % (hx([0x61] * L), hx([0x61] * (L + 3))), dict(family="shiftor-too-long"))
+    # Two-Way forward/reverse (no prefilter)
+    for d in ("fwd", "rev"):
+        fmt = lambda n, h, d=d: "twfind %s %s %s" % (d, hx(n), hx(h))
+        yield from gen_substr_block(rng, tier, per, fmt, needle_ok=lambda n: True, family="tw-" + d,
+                                    exhaustive_ab=(6, 10))
+        fmt2 = lambda n, h, d=d: "twnew %s %s" % (d, hx(n))
+        seen = set()
+        for needle in structured_needles(rng, tier):
+            yield ("twnew %s %s" % (d, hx(needle)), dict(family="twnew-" + d))
+    # generic packed pair find on the small-lane hook (haystack >= min_haystack_len)
+    yield from gen_ppfind(rng, tier, per)
+
+
+def gen_ppfind(rng, tier, budget, pre=False):
+    n = 0
+    lanes_list = [4] if tier == "quick" else [4, 8]
+    for lanes in lanes_list:
+        needles = [n_ for n_ in words([0x61, 0x62], 4 if tier == "quick" else 5, minlen=2)]
+        needles += [[0x61, 0x62, 0x63, 0x64, 0x65, 0x66, 0x67], [0x61] * 9, ([0x61, 0x62] * 6)[:11],
+                    [0x78, 0x79] + [0x61] * 10]
+        for needle in needles:
+            L = len(needle)
+            pairs = [(0, 1), (1, 0), (0, L - 1), (L - 1, 0)]
+            if L > 2:
+                pairs += [(1, L - 1), (L - 2, 1)]
+            pairs = sorted(set(p for p in pairs if p[0] != p[1]))
+            for (i1, i2) in pairs:
+                minlen = max(L, max(i1, i2) + lanes)
+                for H in range(minlen, minlen + 3 * lanes + 2):
+                    hays = []
+                    for _ in range(3 if tier == "quick" else 8):
+                        hays.append([rng.choice(sorted(set(needle))) for _ in range(H)])
+                    hays.append([0x2E] * H)
+                    # planted: in the last overlapping chunk and in the final needle.len() bytes
+                    for posn in sorted(set([H - L, max(0, H - L - 1), max(0, H - minlen), 0, (H - L) // 2])):
+                        h = [needle[i1] if (k % 2 == 0) else needle[i2] for k in range(H)]  # partial pair hits
+                        h[posn:posn + L] = needle
+                        hays.append(h)
+                        h2 = [0x2E] * H
+                        h2[posn:posn + L] = needle
+                        hays.append(h2)
+                    for hay in hays:
+                        hb = (4096 - H) % 4096
+                        if pre:
+                            yield ("pppre %d %s %d %d %d %s" % (lanes, hx(needle), i1, i2, hb, hx(hay)),
+                                   dict(family="pppre-%d" % lanes))
+                        else:
+                            yield ("ppfind %d %s %d %d %d %s %d %s" % (lanes, hx(needle), i1, i2, (4096 - L) % 4096,
+                                                                       hx(needle), hb, hx(hay)),
+                                   dict(family="ppfind-%d" % lanes))
+                        n += 1
+                        if budget and n >= budget:
+                            return
+
+
+# ---------------------------------------------------------------------------------------
+# C11 prefilters: pppre (vector), fbpre (portable)
+
+def g_c11(rng, tier, budget):
+    per = None if budget is None else max(1000, budget // 2)
+    yield from gen_ppfind(rng, tier, per, pre=True)
+    n = 0
+    for needle in structured_needles(rng, tier):
+        L = len(needle)
+        if L < 2:
+            continue
+        cand = [(0, 1), (1, 0), (0, L - 1), (L - 1, 0), (L // 2, L - 1), (min(L - 1, 254), 0), (min(L - 1, 255), 1)]
+        cand = sorted(set((a, b) for (a, b) in cand if a != b and a < L and b < L and a < 256 and b < 256))
+        for (i1, i2) in cand[: (3 if tier == "quick" else 7)]:
+            for hay in haystacks_for(rng, needle, tier, sizes=[0, 1, L, L + 1, 2 * L + 5, 64, 130]):
+                yield ("fbpre %s %d %d %d %s" % (hx(needle), i1, i2, (4096 - len(hay)) % 4096, hx(hay)),
+                       dict(family="fbpre"))
+                n += 1
+                if per and n >= per:
+                    return
+
+
+GENERATORS.update({"C19": g_c19, "C12": g_c12, "C11": g_c11})
